@@ -537,7 +537,8 @@ class _RecConn:
 
 
 class _NullCursor:
-    description = (("id", None, None, None, None, None, None),)
+    def __init__(self, names):
+        self.description = tuple((n.strip('"'), None, None, None, None, None, None) for n in ["id"] + list(names))
 
     def execute(self, sql, params=()):
         for p in params:                 # same refusal as sqlite3 (the model has one binding rule for both flavours)
@@ -555,11 +556,11 @@ class _NullCursor:
 class _MysqlLikeConn:
     """str(type(conn)) contains 'mysql.connector': SqlMethod switches to %s placeholders. Nothing is executed."""
 
-    def __init__(self):
-        self.log = []
+    def __init__(self, names):
+        self.log, self._names = [], names
 
     def cursor(self):
-        return _RecCursor(_NullCursor(), self.log)
+        return _RecCursor(_NullCursor(self._names), self.log)
 
 
 _MysqlLikeConn.__module__ = "mysql.connector.connection"
@@ -586,7 +587,7 @@ def _execute(s, rows=None, method="list", cache=None):
     args = [None if c is None else _py_cond(c, v) for c in call["args"]]
     kw = {k: _py_arg(a, v) for k, a in call["kw"]}
     if s["pct"]:
-        conn, raw = _MysqlLikeConn(), None
+        conn, raw = _MysqlLikeConn(s["names"]), None
     else:
         raw = _open_db(s["names"], rows or [])
         conn = _RecConn(raw)
@@ -1244,7 +1245,7 @@ def _insert_somewhere(rng, args, leaf):
 
 def _g_rows(rng, nmax, gen_cell):
     n = rng.choice([0, 1, 2] + list(range(3, nmax + 1)) * 2)
-    ids, cur = [], 0
+    ids, cur = [], (-1 if rng.random() < 0.2 else 0)       # the record id (first column, the scalar result) may be 0
     for _ in range(n):
         cur += 1 if rng.random() < 0.8 else 1 + 10 * rng.randrange(1, 3)
         ids.append(cur)
@@ -1368,6 +1369,11 @@ def _lines_of(s, rng=None):
         extra = [m for m in extra if rng.random() < 0.4]
     for m in extra:
         lines.append(enc_line("ids", dict(s, method=m)))
+    if rng is not None and rng.random() < 0.12:
+        # the same SqlMethod object is handed connections of the other placeholder flavour in between
+        other = dict(s, pct=1 - s["pct"])
+        for _ in range(rng.choice([1, 2, 3])):
+            lines.insert(rng.randint(0, len(lines)), enc_line(rng.choice(["sql", "params"]), other))
     return lines
 
 
@@ -1466,6 +1472,28 @@ def _static_scenarios():
                                       dorder=[None, [("id", True)]][k % 2])
 
 
+def _entry_point_scenarios():
+    """every entry point x record / scalar delivery (constructor default or per call) x 0, 1, 2 selected rows, the
+    selected record being one whose first column (the scalar that is delivered) is 0"""
+    rows = [[0, 0, "", None], [1, 1, "x", "y"], [2, 0, "x", None], [5, None, "", "y"]]
+    calls = [{"args": [], "kw": [("b", ("S", ""))]},                       # rows 0, 5
+             {"args": [("T", "a", "=", ("S", 0)), ("T", "b", "=", ("S", ""))], "kw": []},     # row 0
+             {"args": [("O", [("T", "c", "IS NULL", ("S", None))], [])], "kw": [("b", ("S", ""))]},   # row 0
+             {"args": [("T", "a", "IN", ("Z", [1]))], "kw": []},             # row 1
+             {"args": [None, ("T", "b", "LIKE", ("S", "_"))], "kw": [("a", ("S", 0))]},      # row 2
+             {"args": [("T", "a", ">", ("S", 5))], "kw": []},               # none
+             {"args": [], "kw": []}]                                       # all
+    k = 0
+    for call in calls:
+        for scal in (None, 0, 1):
+            for v in (0, 1 << 8, (1 << 8) | 1, 1 << 1, (1 << 8) | 1 | (1 << 2), 1 << 9):
+                for dorder in (None, [("id", True)]):
+                    k += 1
+                    s = mk_scenario(call, rows, v=v, scal=scal, dorder=dorder)
+                    yield {"lines": [enc_line("ids", dict(s, method=m)) for m in ("one", "one_or_none", "list", "tone_or_none")],
+                           "meta": {"kind": "entry-points"}}
+
+
 def _long_list_scenarios(rng, sizes, per_size):
     for n in sizes:
         for _ in range(per_size):
@@ -1475,6 +1503,7 @@ def _long_list_scenarios(rng, sizes, per_size):
 def gen_cases(rng, tier):
     for s in _fixed_scenarios():
         yield _mk_case(s, "fixed-shapes")
+    yield from _entry_point_scenarios()
     for s in _static_scenarios():
         yield _mk_case(s, "static-conditions", rng)
     for i, s in enumerate(_keywordish_scenarios()):
@@ -1534,6 +1563,7 @@ def search_cases(rng, tier):
                                        v=rng.randrange(1024)), "search-long-list")
     for s in list(_fixed_scenarios())[-400:]:
         yield _mk_case(s, "search-names")
+    yield from _entry_point_scenarios()
     for s in _static_scenarios():
         yield _mk_case(s, "search-static")
     for s in _keywordish_scenarios():
@@ -1604,6 +1634,8 @@ def shrink(case):
     if len(lines) > 1:
         for i in range(len(lines)):
             yield {"lines": [lines[i]], "meta": case.get("meta", {})}
+        for i in range(len(lines)):          # a failure that needs an earlier call on the same object
+            yield {"lines": lines[:i] + lines[i + 1:], "meta": case.get("meta", {})}
         return
     cmd, s = dec_line(lines[0])
 
@@ -1686,6 +1718,11 @@ def tags(case, replies):
     yield "as_scalars:" + ("absent" if s["scal"] is None else str(s["scal"]))
     if s["group"]:
         yield "group-by"
+    if len(set(l.split()[2] for l in case["lines"])) > 1:
+        yield "flavours-alternate-on-one-object"
+    for line, rep in zip(case["lines"], replies):
+        if line.startswith("ids ") and " one " in line and rep == "ok 0":
+            yield "one:scalar-or-record-with-id-0"
     if any(c is None for c in call["args"]):
         yield "none-argument"
     if call["kw"]:
